@@ -156,13 +156,14 @@ def run(ctx: Ctx) -> None:
 
     def with_comments():
         md = cd([("__type__", "metadata"), ("__comments__", HDict({"__type__": [C("md_block")], "akey": [C("md_pair")]})), ("akey", W("v"))])
-        cls = cd([("__type__", "class"), ("__comments__", HDict({"__type__": [C("cls1"), C("cls2")], "name": [C("cname")]})), ("name", W("cn"))])
-        return cd([("__type__", "layer"), ("__comments__", HDict({"__type__": [C("layer")], "name": [C("name")], "type": [C("t1"), C("t2")]})), ("name", W("n")), ("type", SStr.atom("enumword", lower_is="point")), ("metadata", md), ("classes", [cls])])
+        cls = cd([("__type__", "class"), ("__comments__", HDict({"__type__": [C("cls1"), C("cls2")], "name": [C("cname")], "status": [C("cstatus")]})), ("name", W("cn")), ("status", SStr.atom("enumword3", lower_is="off"))])
+        # STATUS and GROUP stand after the nested blocks: their comments belong to the LAYER's own lines
+        return cd([("__type__", "layer"), ("__comments__", HDict({"__type__": [C("layer")], "name": [C("name")], "type": [C("t1"), C("t2")], "status": [C("lstatus")], "group": [C("lgroup")]})), ("name", W("n")), ("type", SStr.atom("enumword", lower_is="point")), ("metadata", md), ("classes", [cls]), ("status", SStr.atom("enumword2", lower_is="on")), ("group", W("g"))])
 
     def without_comments():
         md = cd([("__type__", "metadata"), ("akey", W("v"))])
-        cls = cd([("__type__", "class"), ("name", W("cn"))])
-        return cd([("__type__", "layer"), ("name", W("n")), ("type", SStr.atom("enumword", lower_is="point")), ("metadata", md), ("classes", [cls])])
+        cls = cd([("__type__", "class"), ("name", W("cn")), ("status", SStr.atom("enumword3", lower_is="off"))])
+        return cd([("__type__", "layer"), ("name", W("n")), ("type", SStr.atom("enumword", lower_is="point")), ("metadata", md), ("classes", [cls]), ("status", SStr.atom("enumword2", lower_is="on")), ("group", W("g"))])
 
     opts = lambda: L.sym_options(end_comment=False, indent=2, spacer=" ", newlinechar="\n")
     all_outs = L.format_lines(with_comments, opts, level=0, fork=True)
@@ -176,7 +177,7 @@ def run(ctx: Ctx) -> None:
     lines = [pai.as_sstr(x) for x in outs[0][2]]
     texts = [x.describe() for x in lines]
     # each comment once
-    names = ["layer", "name", "t1", "t2", "md_block", "md_pair", "cls1", "cls2", "cname"]
+    names = ["layer", "name", "t1", "t2", "md_block", "md_pair", "cls1", "cls2", "cname", "cstatus", "lstatus", "lgroup"]
     counts = {n: sum(t.count(f"<COMMENT_{n}>") for t in texts) for n in names}
     ctx.check(all(v == 1 for v in counts.values()), "K4", "every comment written exactly once", locp, "", f"occurrences {counts}")
     mod = [a.describe() for a in layout.atoms_in(lines) if a.name.startswith("COMMENT") and a.ops]
@@ -198,8 +199,9 @@ def run(ctx: Ctx) -> None:
     ctx.check(any(t == '  NAME "<n>" # <COMMENT_name>' for t in texts), "K4", "attribute comment at the end of its attribute's line", locp, "", f"{[t for t in texts if 'COMMENT_name' in t]}")
     ctx.check(any(t == "  TYPE POINT # <COMMENT_t1> # <COMMENT_t2>" for t in texts), "K4", "several comments of one attribute joined on its line, in order", locp, "", f"{[t for t in texts if 'COMMENT_t1' in t]}")
     ctx.check(any(t == '    "akey" "<v>" # <COMMENT_md_pair>' for t in texts), "K4", "METADATA pair comment at the end of the pair's line", locp, "", f"{[t for t in texts if 'md_pair' in t]}")
+    ctx.check(any(t == "    STATUS OFF # <COMMENT_cstatus>" for t in texts), "K4", "comment of a keyword inside the nested CLASS stays on that line", locp, "", f"{[t for t in texts if 'STATUS' in t]}")
+    ctx.check(any(t == "  STATUS ON # <COMMENT_lstatus>" for t in texts) and any(t == '  GROUP "<g>" # <COMMENT_lgroup>' for t in texts), "K4", "comments of keywords written after a nested block stay on their own lines", locp, "", f"the LAYER keywords STATUS / GROUP that follow the CLASS block are written as {[t for t in texts if 'STATUS' in t or 'GROUP' in t]}: their comments are lost or taken from the nested block")
     # K5
-    from .c13 import run as _unused  # noqa: F401
 
     def strip_comments(ls):
         out = []
